@@ -35,8 +35,8 @@ Proof. exact replay_spec. Qed.
 Print Assumptions C11_replay_spec.
 
 (** Outcome, repaired variant, over the finite lattice of job building blocks
-    (3 sources x 3 transforms x 3 sinks x 2 trigger types x 2 job types x 6 handler sets, + kill for
-    the slow source = 864 configurations; decided by vm_compute and lifted with forallb_forall - the
+    (3 sources x 5 transforms x 3 sinks x 2 trigger types x 2 job types x 6 handler sets, + kill for
+    the slow source = 1440 configurations; decided by vm_compute and lifted with forallb_forall - the
     bound is the lattice itself): every accepted configuration ends with a stored result
     (success, failure or kill), the run slot released and the process alive. *)
 Theorem C11_outcome : forall c, In c all_cfgs -> accepted jfixed c = true ->
@@ -45,7 +45,7 @@ Theorem C11_outcome : forall c, In c all_cfgs -> accepted jfixed c = true ->
 Proof. exact outcome_lattice. Qed.
 Print Assumptions C11_outcome.
 
-Theorem C11_lattice_size : length all_cfgs = 864%nat.
+Theorem C11_lattice_size : length all_cfgs = 1440%nat.
 Proof. exact lattice_size. Qed.
 Print Assumptions C11_lattice_size.
 
@@ -90,6 +90,21 @@ Theorem C11_refuted_panic_kills :
 Proof. exact refuted_panic_kills. Qed.
 Print Assumptions C11_refuted_panic_kills.
 
+(** F11d (= F10b seen from C11): the partition arithmetic of the parallel transform panics inside the run *)
+Theorem C11_refuted_chunk_panic :
+  In w_f11d all_cfgs /\ accepted jcurrent w_f11d = true /\ fst (sync jcurrent w_f11d) = SPanic
+  /\ o_alive (run_job jcurrent w_f11d) = false /\ o_result (run_job jcurrent w_f11d) = None
+  /\ run_job jfixed w_f11d = {| o_accepted := true; o_alive := true; o_result := Some RSuccess; o_ticket := true |}.
+Proof. exact refuted_chunk_panic. Qed.
+Print Assumptions C11_refuted_chunk_panic.
+
+(** emptied batch + rejecting sink + log handler ends as a recorded failure *)
+Theorem C11_empty_batch_rejected :
+  In w_empty all_cfgs
+  /\ run_job jfixed w_empty = {| o_accepted := true; o_alive := true; o_result := Some RFailure; o_ticket := true |}.
+Proof. exact empty_batch_rejected. Qed.
+Print Assumptions C11_empty_batch_rejected.
+
 (** tie to the correspondence check *)
 Theorem C11_agree_implies_spec : forall c, 0 <= t_capF c -> 0 <= t_capI c ->
   agree jfixed c = true -> spec_ok c = true.
@@ -109,6 +124,6 @@ Example C11_nonvacuous_1 :
   /\ replay [OBorrow 1 false; OBorrow 2 false] (r_init 2 1) = None.
 Proof. vm_compute. repeat split. Qed.
 Example C11_nonvacuous_2 :
-  length (filter (accepted jfixed) all_cfgs) = 720%nat
-  /\ length (filter dies_current all_cfgs) = 258%nat.
+  length (filter (accepted jfixed) all_cfgs) = 1200%nat
+  /\ length (filter dies_current all_cfgs) = 470%nat.
 Proof. vm_compute. split; reflexivity. Qed.
